@@ -215,6 +215,65 @@ def case_explog_batch(H, g, sa):
                 key='C06/batch/Exp', timeout=15)
 
 
+def case_add_batch(H, g, sa, sb):
+    """out-of-place `X + a` (documented item by item: y_i = Exp(a_i) x_i) on lshape sa plus increments of batch shape sb, both
+    broadcast directions: batched == item by item, result lshape = broadcast shape"""
+    name = 'C06/batch/%s/add/%s + %s' % (g, sa, sb)
+    out_shape = broadcastable(sa, sb)
+
+    def concrete():
+        X = rand_group(g, 11, shape=tuple(sa))
+        a = torch.randn(*sb, ADIM[g], dtype=DT, generator=torch.Generator().manual_seed(12))
+        return X, a
+
+    def replay(model):
+        X, a = concrete()
+        try:
+            Y = X + a
+        except Exception as e:
+            return True, 'X + a with lshape %s and increments %s raised %s: %s' % (sa, sb, type(e).__name__, str(e)[:100])
+        if tuple(Y.lshape) != out_shape:
+            return True, 'X + a returned lshape %s, expected %s' % (tuple(Y.lshape), out_shape)
+        Xe = X.tensor().expand(out_shape + (GDIM[g],)).reshape(-1, GDIM[g])
+        ae = a.expand(out_shape + (ADIM[g],)).reshape(-1, ADIM[g])
+        worst = 0.0
+        for k in range(Xe.shape[0]):
+            o = pp.LieTensor(Xe[k], ltype=GTYPE[g]) + ae[k]
+            worst = max(worst, (Y.tensor().reshape(-1, GDIM[g])[k] - o.tensor()).abs().max().item())
+        return worst > 1e-9, 'batched X + a differs from the item-by-item result by %.3g' % worst
+
+    def prog(m):
+        X, a = concrete()
+        xs = m.symbolic(X, 'x')
+        as_ = m.symbolic(a, 'a')
+        Y = X + a
+        yt = m.full_terms(Y.tensor())
+        items = []
+        n = 1
+        for s_ in out_shape:
+            n *= s_
+        ia = torch.arange(max(1, X.numel() // GDIM[g])).view(tuple(sa)).expand(out_shape).reshape(-1).tolist()
+        ib = torch.arange(max(1, a.numel() // ADIM[g])).view(tuple(sb)).expand(out_shape).reshape(-1).tolist()
+        for k in range(n):
+            o = pp.LieTensor(X.tensor().reshape(-1, GDIM[g])[ia[k]], ltype=GTYPE[g]) + a.reshape(-1, ADIM[g])[ib[k]]
+            items += m.full_terms(o.tensor())
+        ok = isinstance(Y, pp.LieTensor) and Y.ltype == GTYPE[g] and tuple(Y.lshape) == out_shape
+        return yt, items, ok
+
+    def on_raise(ctx, e):
+        H.absorb(ctx)
+        bad, det = replay({})
+        if bad:
+            H.violation('C06/batch/raises/add', '%s: %s' % (name, det), {'case': name})
+        else:
+            H.engine_error(name, e)
+
+    for ctx, (yt, items, ok) in run_paths(H, name, prog, max_paths=16, max_decisions=40, raised=on_raise):
+        H.prove('%s/path%d/meta' % (name, H.paths), [], z3.BoolVal(bool(ok)), key='C06/batch/add', replay=replay)
+        H.prove('%s/path%d/items' % (name, H.paths), H.hyps_of(ctx, pairs=False), z3.And([a_ == b_ for a_, b_ in zip(yt, items)]) if len(yt) == len(items) else z3.BoolVal(False),
+                key='C06/batch/add', timeout=15, replay=replay)
+
+
 def case_jinvp_batch(H, g):
     """Jinvp on a batch of two symbolic elements in possibly DIFFERENT regimes (zero / tiny / generic rotation; mask arithmetic and
     whole-batch shortcuts inside the Jacobian helpers): batched == item by item, and finite"""
@@ -570,6 +629,13 @@ def run(H):
             case_explog_batch(H, g, sa)
         except Exception as e:
             H.engine_error('explog', e)
+    for g, sa, sb in ((('SO3', (), (2,)), ('SO3', (1,), (2,)), ('SE3', (2,), ())) if H.quick else
+                      (('SO3', (), (2,)), ('SO3', (1,), (2,)), ('SE3', (2,), ()), ('SE3', (2, 1), (1, 2)), ('RxSO3', (), (2,)), ('Sim3', (1,), (2,)))):
+        try:
+            case_add_batch(H, g, sa, sb)
+        except Exception as e:
+            import traceback; traceback.print_exc()
+            H.engine_error('add-batch', e)
     for g in (['SE3'] if H.quick else ['SO3', 'SE3', 'RxSO3']):
         try:
             case_jinvp_batch(H, g)
